@@ -173,7 +173,8 @@ func execute(kind, path string, options map[string]string, pick func(n int) []in
 		return ex
 	}
 	col := &nodeh.Collector{}
-	res := nodeh.RunNodeCtx(ctx, node, col, nil, 120*time.Second)
+	// hostile consumer: appends to / overwrites every record it was handed (after the collector copied it)
+	res := nodeh.RunNodeCtx(ctx, fileh.Hostile(node), col, nil, 120*time.Second)
 	ex.outs = col.Snapshot()
 	switch {
 	case res.TimedOut:
